@@ -546,7 +546,9 @@ pub fn check_c09(case: &RawCase, rr: &RawRun, an: &Analysed, out: &mut Outcome) 
         an.tap.frames.iter().any(|f| f.from == e && f.raw.stream == case.probe_stream && matches!(&f.frame, Ok(Frame::Headers { .. })))
     } else {
         // client under test: its second request (key = probe_stream) got its response
-        rr.run.events.iter().any(|ev| ev.side == e && ev.key == case.probe_stream && matches!(&ev.api, Api::RecvHead { kind: "response", .. }))
+        // (… whichever request of the application went out second, i.e. on stream 2·probe−1)
+        let probe_key = rr.run.events.iter().find(|ev| ev.side == e && matches!(&ev.api, Api::SentHead { kind: "request", stream, .. } if *stream as u64 + 1 == 2 * case.probe_stream as u64)).map(|ev| ev.key).unwrap_or(case.probe_stream);
+        rr.run.events.iter().any(|ev| ev.side == e && ev.key == probe_key && matches!(&ev.api, Api::RecvHead { kind: "response", .. }))
     };
     let conn_done_err = rr.run.events.iter().any(|ev| ev.side == e && matches!(&ev.api, Api::ConnDone { result: Err(_) }));
     // (server: streams handed to accept(); client: promised streams handed to the application as pushes)
@@ -569,21 +571,40 @@ pub fn check_c09(case: &RawCase, rr: &RawRun, an: &Analysed, out: &mut Outcome) 
     }
     // ---- delivery demands (HTTP validity items)
     let (_, recv) = views(&rr.run.events);
-    for key in &inj.no_head {
+    // (client under test: the items name request keys 1 and 2 meaning "the request on stream 1 / 3"; which of the
+    // application's requests went out first is up to the schedule, so the keys are translated through the streams
+    // the requests really used; push keys are parent key × 1000 + n)
+    let remap = |k: u32| -> u32 {
+        if e != Side::Client {
+            return k;
+        }
+        let on_stream = |sid: u32| rr.run.events.iter().find(|ev| ev.side == e && matches!(&ev.api, Api::SentHead { kind: "request", stream, .. } if *stream == sid)).map(|ev| ev.key);
+        if k >= 1000 {
+            on_stream(2 * (k / 1000) - 1).map(|p| p * 1000 + k % 1000).unwrap_or(k)
+        } else if k >= 1 {
+            on_stream(2 * k - 1).unwrap_or(k)
+        } else {
+            k
+        }
+    };
+    let no_head: Vec<u32> = inj.no_head.iter().map(|k| remap(*k)).collect();
+    let no_clean_end: Vec<u32> = inj.no_clean_end.iter().map(|k| remap(*k)).collect();
+    let must_deliver: Vec<(u32, usize)> = inj.must_deliver.iter().map(|(k, b)| (remap(*k), *b)).collect();
+    for key in &no_head {
         if let Some(r) = recv.get(&(*key, e.other())) {
             if r.heads.iter().any(|h| h.0 == "request" || h.0 == "response" || h.0 == "push-request") {
                 out.fail("C13", "http/malformed-delivered", format!("C13/{}/{}/malformed-message-delivered", role, inj.state), format!("{}: the receive API handed a head for message key {} to the application although its header section is malformed — {}", inj.item, key, inj.basis));
             }
         }
     }
-    for key in &inj.no_clean_end {
+    for key in &no_clean_end {
         if let Some(r) = recv.get(&(*key, e.other())) {
             if r.clean_end.is_some() {
                 out.fail("C13", "http/clean-end", format!("C13/{}/{}/malformed-message-ends-cleanly", role, inj.state), format!("{}: message key {} was reported as a clean end ({} bytes, trailers {:?}) although it is malformed — {}", inj.item, key, r.bytes, r.clean_end.as_ref().map(|t| t.is_some()), inj.basis));
             }
         }
     }
-    for (key, bytes) in &inj.must_deliver {
+    for (key, bytes) in &must_deliver {
         let ok = recv.get(&(*key, e.other())).map(|r| r.clean_end.is_some() && r.bytes == *bytes && r.content_ok).unwrap_or(false);
         if !ok && rr.run.panic.is_none() && rr.obs.script_done {
             let got = recv.get(&(*key, e.other())).map(|r| format!("heads {} bytes {} clean_end {} err {:?}", r.heads.len(), r.bytes, r.clean_end.is_some(), r.err.as_ref().map(|x| &x.1.text)));
